@@ -82,6 +82,7 @@ _DECODE_ERRORS = (
     ArithmeticError,
     EOFError,
     struct.error,
+    MemoryError,  # e.g. a predictor row of 2**31 /Columns
 )
 
 
